@@ -5,7 +5,7 @@ import (
 	"encoding/json"
 	"fmt"
 	"io"
-	"math"
+	"math/big"
 	"sort"
 	"strconv"
 	"strings"
@@ -157,12 +157,14 @@ func jsonKind(v any) string {
 	return fmt.Sprintf("%T", v)
 }
 
+// isIntegral decides on the exact value of the JSON number, whatever its
+// spelling (1, 1.0, 1e3, 10e-1 are integral; 1.5, 15e-1, 5E-1 are not).
 func isIntegral(n json.Number) bool {
-	f, err := strconv.ParseFloat(string(n), 64)
-	if err != nil || math.IsInf(f, 0) {
-		return false
+	if !strings.ContainsAny(string(n), ".eE") {
+		return true
 	}
-	return f == math.Trunc(f)
+	r, ok := new(big.Rat).SetString(string(n))
+	return ok && r.IsInt()
 }
 
 // leafOK applies the strictness table to a non-null value.
@@ -202,9 +204,10 @@ func numEqual(a, b json.Number) bool {
 	if a == b {
 		return true
 	}
-	x, e1 := strconv.ParseFloat(string(a), 64)
-	y, e2 := strconv.ParseFloat(string(b), 64)
-	return e1 == nil && e2 == nil && x == y
+	// exact numeric equality, independent of the spelling
+	x, ok1 := new(big.Rat).SetString(string(a))
+	y, ok2 := new(big.Rat).SetString(string(b))
+	return ok1 && ok2 && x.Cmp(y) == 0
 }
 
 func jsonEqual(a, b any) bool {
@@ -252,6 +255,16 @@ func jsonEqual(a, b any) bool {
 func leafRenderedEqual(scalar string, payload, out any) bool {
 	if jsonEqual(payload, out) {
 		return true
+	}
+	if scalar == "Float" {
+		// Float is an IEEE 754 double: two spellings of the same double are equal
+		p, ok1 := payload.(json.Number)
+		o, ok2 := out.(json.Number)
+		if ok1 && ok2 {
+			x, e1 := strconv.ParseFloat(string(p), 64)
+			y, e2 := strconv.ParseFloat(string(o), 64)
+			return e1 == nil && e2 == nil && x == y
+		}
 	}
 	if scalar == "ID" {
 		if n, ok := payload.(json.Number); ok {
